@@ -285,9 +285,13 @@ class SymSeq(Sym):
 
     def __iter__(self):
         for it in self.items:
-            if isinstance(it, Fill):
-                yield Gen(it)
-            elif isinstance(it, Piece):
+            if isinstance(it, Piece):
+                n = S(it.ln)
+                if z3.is_int_value(n) and n.as_long() <= 64:
+                    # a piece of small concrete length is iterated element by element (byte-wise comparison loops)
+                    for i in range(n.as_long()):
+                        yield it.value if isinstance(it, Fill) else byte_of(it.base, S(it.off + i))
+                    continue
                 yield Gen(it)
             else:
                 yield it
